@@ -310,3 +310,28 @@ def swap_trim_coordinates(trim):
         trim.evaluate(points=[[pt[1], pt[0]] for pt in trim.evalpts])
     else:
         trim.ctrlpts = [[pt[1], pt[0]] for pt in trim.ctrlpts]
+
+
+def find_knot_span(degree, knot_vector, num_ctrlpts, knot):
+    """ Finds the knot span :math:`k` satisfying :math:`u_k \\leq u < u_{k+1}` for the knot insertion and removal algorithms.
+
+    The knot span finding functions return the last knot span of the domain for the parameter at the end of the domain, as
+    required for evaluation. The end of the domain of an unclamped knot vector is a knot which can be inserted or removed,
+    too; the algorithms then need the index of the last knot which is equal to the parameter.
+
+    :param degree: degree
+    :type degree: int
+    :param knot_vector: knot vector
+    :type knot_vector: list, tuple
+    :param num_ctrlpts: number of control points
+    :type num_ctrlpts: int
+    :param knot: knot or parameter
+    :type knot: float
+    :return: knot span
+    :rtype: int
+    """
+    span = helpers.find_span_linear(degree, knot_vector, num_ctrlpts, knot)
+    while span + 1 < len(knot_vector) - 1 and knot_vector[span + 1] <= knot:
+        span += 1
+    return span
+
